@@ -56,6 +56,7 @@ def _check_main(run, P):
              "map_expressions or rebuilt from mapper(<same path>)", minimum=8)
 
     reads_writes(run, P, classes)
+    _callee_lookup(run, P)
 
     _mapper_config(run, P)
     _written_whole(run, P, classes)
@@ -103,6 +104,28 @@ def reads_writes(run, P, classes, r_reads="C08.reads", r_writes="C08.writes"):
                             f"{K.name}.get_written_variables() does not name "
                             f"({sorted(W)})"))
 
+
+
+def _callee_lookup(run, P, rule="C08.reads"):
+    """The function of a call evaluated inside an expression comes from the
+    function table, never from the variable store."""
+    f = P.func("dagrt.expression.EvaluationMapper.map_generic_call")
+    calls = [x for x in ast.walk(f.node) if isinstance(x, ast.Call) and isinstance(x.func, ast.Name)
+             and any(isinstance(a, ast.Starred) for a in x.args)]
+    if len(calls) != 1:
+        raise AnalysisError("EvaluationMapper.map_generic_call: the call of the looked-up function not found")
+    v = calls[0].func.id
+    defs = [s_.value for s_ in ast.walk(f.node) if isinstance(s_, ast.Assign)
+            and any(isinstance(t, ast.Name) and t.id == v for t in s_.targets)]
+    ok = bool(defs) and all(isinstance(d, ast.Subscript) and dotted(d.value) == "self.functions"
+                            and dotted(d.slice) == f.params[1] for d in defs)
+    run.ob(rule, f, defs[0] if defs else f.node, ok,
+           construct=f"map_generic_call: {v} = self.functions[{f.params[1]}] (found: "
+                     f"{[norm(d, 50) for d in defs]})",
+           why="resolved like a variable, the function's name is looked up in the variable "
+               "store first: the call reads a variable the statement does not declare "
+               "(function symbols are excluded from read sets), and a variable that happens "
+               "to be called like the function is called instead of it")
 
 
 def _written_whole(run, P, classes, rule="C08.writes"):
@@ -180,6 +203,21 @@ def _mapper_config(run, P):
                    why="the default configuration must descend into call "
                        "arguments ('descend_args'), else variables passed to "
                        "functions are missing from the read set")
+
+    # (1b) nobody asks for another configuration at a call site
+    lang = P.module("dagrt.language")
+    sites_ = [(fn_, x) for fn_ in lang.functions.values() for x in ast.walk(fn_.node)
+              if isinstance(x, ast.Call) and isinstance(x.func, ast.Attribute)
+              and x.func.attr == "get_dependency_mapper"]
+    odd = [(fn_, x) for fn_, x in sites_ if x.args or any(
+        not (isinstance(k.value, ast.Constant) and k.value.value == "descend_args")
+        for k in x.keywords if k.arg == "include_calls") or any(
+        k.arg not in ("include_calls",) for k in x.keywords)]
+    run.ob("C08.mapper", odd[0][0] if odd else lang, odd[0][1] if odd else None, bool(sites_) and not odd,
+           construct=f"{len(sites_)} call(s) of get_dependency_mapper(), none overriding the configuration"
+                     + (f" (found {norm(odd[0][1])})" if odd else ""),
+           why="include_calls=False makes pymbolic descend into the function symbol as well: a "
+               "function called in a guard is then a variable read, and fusion renames it")
 
     # (2) pymbolic facts, read from source
     dm = P.cls("pymbolic.mapper.dependency.DependencyMapper")
@@ -392,6 +430,8 @@ def _flow_func(run, P, f, meth, rule="C08.flow"):
 
     _skip_and_subtract(run, P, f, stmts, is_source, rule)
     _no_bypass(run, P, f, is_source, rule)
+    if meth == "get_read_variables":
+        _only_collected(run, P, f, is_source, rule)
 
     for s in stmts:
         if isinstance(s, (ast.FunctionDef, ast.ClassDef)):
@@ -428,6 +468,43 @@ def _flow_func(run, P, f, meth, rule="C08.flow"):
             run.ob(rule, f, s, ok,
                    construct=f"{norm(c, 60)} in {norm(s, 90)}",
                    why=why or "flows to the return value")
+
+
+def _only_collected(run, P, f, is_source, rule):
+    """Names enter a read set through the dependency mapper only: every set
+    built in the method is built from a collector's result (or is what is
+    subtracted, or empty)."""
+    subtracted = set()
+    for x in ast.walk(f.node):
+        if isinstance(x, ast.BinOp) and isinstance(x.op, ast.Sub):
+            subtracted |= {id(y) for y in ast.walk(x.right)}
+        if isinstance(x, ast.AugAssign) and isinstance(x.op, ast.Sub):
+            subtracted |= {id(y) for y in ast.walk(x.value)}
+    nested_nodes = {id(y) for g_ in f.nested.values() for y in ast.walk(g_.node)}
+    odd = []
+    n = 0
+    for x in ast.walk(f.node):
+        if id(x) in nested_nodes or id(x) in subtracted:
+            continue
+        built = None
+        if isinstance(x, ast.Call) and dotted(x.func) in ("set", "frozenset") and x.args:
+            built = x.args[0]
+        elif isinstance(x, (ast.Set, ast.SetComp)):
+            built = x
+        if built is None:
+            continue
+        n += 1
+        if any(is_source(y) for y in ast.walk(built)):
+            continue
+        if isinstance(built, (ast.List, ast.Tuple, ast.Set)) and not built.elts:
+            continue
+        odd.append(x)
+    run.ob(rule, f, odd[0] if odd else f.node, not odd,
+           construct=f"{f.qualname}: every set of names is built from a collector's result "
+                     f"({n} set constructions)" + (f"; found {norm(odd[0], 60)}" if odd else ""),
+           why="a shortcut that reads a name off the expression itself (a guard's .name, "
+               "say) is right for a plain variable and wrong for everything else that has "
+               "a .name: for the lookup 'z.imag' it declares a read of 'imag' and none of 'z'")
 
 
 def _no_bypass(run, P, f, is_source, rule):
@@ -594,7 +671,9 @@ def _ident(run, P, classes):
         D = sm.read_set(P, K)
         W = sm.written_set(P, K)
         M = sm.mapped(P, K)
-        heads = sorted({sm.head(p) for p in D | W})
+        # every field map_expressions writes: those feeding the declared sets, and the
+        # name lists bound inside them (solve variables, loop identifiers)
+        heads = sorted({sm.head(p) for p in D | W} | set(M))
         for h in heads:
             if h not in M:
                 run.ob("C08.ident", K, K.node, True,
